@@ -21,7 +21,10 @@ ASSUMPTIONS = ["tolerance 2e-5 relative for monotonicity, 5e-5 for the scale law
                "seaweed growth factors are not perturbed (biomass cannot be freely disposed of, so monotonicity in growth is not implied)"]
 TOL, TOL_LOOSE = 2e-5, 5e-5
 
-KINDS = ["stored", "crops", "meat", "milk", "fish", "greenhouse", "scp", "cs", "seaweed_area", "waste", "feed_charge", "biofuel_charge", "scale"]
+KINDS = ["stored", "crops", "meat", "milk", "fish", "greenhouse", "scp", "cs", "seaweed_area", "waste", "waste_one", "waste_one", "feed_charge",
+         "biofuel_charge", "scale"]
+WASTE_KEYS = [("STORED_FOOD_WASTE_RETAIL", "ADD_STORED_FOOD"), ("CROP_WASTE_RETAIL", "ADD_OUTDOOR_GROWING"), ("MEAT_WASTE_RETAIL", "ADD_MEAT"),
+              ("SCP_RETAIL_WASTE", "ADD_METHANE_SCP"), ("CELL_SUGAR_RETAIL_WASTE", "ADD_CELLULOSIC_SUGAR"), ("SEAWEED_WASTE_RETAIL", "ADD_SEAWEED")]
 
 
 @st.composite
@@ -101,6 +104,16 @@ def apply(c, tc, p):
         for key in ("STORED_FOOD_WASTE_RETAIL", "CROP_WASTE_RETAIL", "MEAT_WASTE_RETAIL", "SCP_RETAIL_WASTE", "CELL_SUGAR_RETAIL_WASTE", "SEAWEED_WASTE_RETAIL"):
             c[key] = nw
         return c, tc, "up"
+    if k == "waste_one":
+        # each food's retail waste is a separate input of the optimiser: lower one of them on its own
+        present = [(key, flag) for key, flag in WASTE_KEYS if c[flag]]
+        if not present:
+            return None
+        key, _ = present[p["month"] % len(present)]
+        if c[key] <= 0:
+            return None
+        c[key] = c[key] * max(0.0, 1 - p["amount"] / 2.0)
+        return c, tc, "up"
     if k in ("feed_charge", "biofuel_charge"):
         if not any(c[x] for x in ("ADD_STORED_FOOD", "ADD_OUTDOOR_GROWING", "ADD_SEAWEED", "ADD_CELLULOSIC_SUGAR", "ADD_METHANE_SCP")):
             return None
@@ -158,6 +171,11 @@ def run_case(ctx, iso3, options, perts, title):
     for j, p in enumerate(perts):
         which = j % len(humans)
         judge(ctx, iso3, options, which, humans[which], p)
+    # every food's own retail-waste constant, lowered on its own, on the no-feed instance (cheap and systematic)
+    c0 = humans[0]["consts"]
+    present = [i for i, (key, flag) in enumerate(k for k in WASTE_KEYS if c0[k[1]])]
+    for i in present:
+        judge(ctx, iso3, options, 0, humans[0], dict(kind="waste_one", month=i, amount=perts[0]["amount"] if perts else 0.5, scale=1.0))
 
 
 def judge(ctx, iso3, options, which, cap, p):
